@@ -117,6 +117,16 @@ PROPS = {
         "trusted_base": ["harness/src/s_snapshot.rs", "tools/props.py oracle_snapshot", "lean/Codec.lean, lean/Driver.lean"],
         "assumptions": ["order-dependent cases (C11) are left to C11"],
     },
+    "C14": {
+        "module": "BiscuitModel.Props.C14",
+        "streams": ["print"],
+        "level_text": "Lean 4 theorems about an executable model of both printer families and of the literal parsers (Model/Printer): string_lit_round_trip (for EVERY string - quotes, backslashes, newlines, any scalar value - and every continuation of the text, the string parser reads the printed literal back as exactly that string and stops right after its closing quote: no string value can make printed text parse as different code), hex_round_trip and int_round_trip (the same for every non-empty byte string and every 64-bit integer, given that the next character is not a digit of that literal), postfix_print_infix / printExpr_opcodes (Expression::print, a stack machine over postfix ops with nested closure bodies, renders the op list of ANY expression tree as that tree's infix text, so the only parentheses printed are the explicit Parens nodes), and singleton_set_prints_as_parameter (the printer is not injective: the witness of the known finding). Tie: stream print - facts, rules, checks, policies, block sources and authorizer dumps generated over every term type, nested collections, every operator and method, closures, scopes with both key algorithms, strings over the full scalar range; the model's text is compared with Display of the builder item, with Biscuit::print_block_source (SymbolTable printers) and with the BlockBuilder Display; an implementation-only oracle requires that the real parser accepts the printed text and returns a structurally identical item (for blocks: identical serialized block after print_block_source -> BlockBuilder::code -> build; for authorizers: identical snapshot after dump_code -> AuthorizerBuilder::code). A third of the expression-bearing items are the parser's own output on text printed with parentheses left out at random, i.e. ASTs the grammar derives by construction.",
+        "level_note": "Partial: the inverse direction for whole terms, predicates and expressions - that the combinator parser (term alternatives, set/array/map framing, the operator-precedence layers expr..expr9) inverts the printer on every AST it can produce - is not a theorem; it is decided per generated item by running the real parser (oracle). Dates are printed by an executable RFC 3339 formatter in the model that is validated by the stream only. Items that contain unbound {parameters} are outside this property's stream (C20).",
+        "rule": "print stream: corpus (fixed findings and the known one) first, then seeded items; non-trivial = the item contains a quote or backslash inside a string, an operator, a map, or a scope; distinct = distinct case JSON",
+        "trusted_base": ["harness/src/s_print.rs (generator, AST<->JSON, structural comparison)", "tools/props.py cmp_print (texts compared modulo the order of set and map elements), oracle_print", "lean/Codec.lean, lean/Driver.lean"],
+        "assumptions": [],
+        "open_obligations": ["C14_full: parse (print x) = x for every grammar-derivable item, as a theorem about a model of the whole parser"],
+    },
     "C15": {
         "module": "BiscuitModel.Props.C15",
         "streams": ["chain"],
@@ -423,7 +433,90 @@ def cmp_snapshot(case, impl, model):
     return None
 
 
-COMPARATORS = {"snapshot": cmp_snapshot, "symbols": cmp_symbols, "versions": cmp_versions, "chain": cmp_chain, "limits": cmp_limits, "expr": cmp_default, "engine": cmp_engine, "authz": cmp_authz, "atten": cmp_atten, "determ": cmp_determ}
+
+# ---------------------------------------------------------------- print stream (C14)
+def norm_sets(text):
+    """canonical form of printed Datalog for comparison: the elements of every `{...}` (sets, maps) are sorted.
+    The order in which a set or map is printed follows the order in which its strings were interned, which
+    is not part of the program; string literals are skipped over with their escapes."""
+    n = len(text)
+
+    def until(i, stops):
+        out = []
+        while i < n:
+            c = text[i]
+            if c in stops:
+                break
+            if c == '"':
+                j = i + 1
+                while j < n and text[j] != '"':
+                    j += 2 if text[j] == "\\" else 1
+                out.append(text[i:j + 1])
+                i = j + 1
+            elif c == "{":
+                elems = []
+                i += 1
+                while True:
+                    e, i = until(i, ",}")
+                    elems.append(e.strip())
+                    if i >= n or text[i] == "}":
+                        break
+                    i += 1
+                i += 1
+                out.append("{" + ", ".join(sorted(elems)) + "}")
+            elif c in "([":
+                e, i = until(i + 1, ")" if c == "(" else "]")
+                out.append(c + e + (text[i] if i < n else ""))
+                i += 1
+            else:
+                out.append(c)
+                i += 1
+        return "".join(out), i
+
+    res = []
+    i = 0
+    while i < n:
+        e, i = until(i, "")
+        res.append(e)
+    return "".join(res)
+
+
+def cmp_print(case, impl, model):
+    """the model's printer against both printer families of the implementation"""
+    if "driver_error" in model:
+        return "driver error: %s" % model["driver_error"]
+    if "panic" in impl:
+        return "skip"          # judged by the oracle; there is no text to compare
+    it, mt = impl.get("text"), model.get("text")
+    if it != mt and norm_sets(it) != norm_sets(mt):
+        return "printed text differs from the printer model: %r vs %r" % (it[:300], mt[:300])
+    bt = impl.get("builder_text")
+    if bt is not None and bt != mt and norm_sets(bt) != norm_sets(mt):
+        return "BlockBuilder Display differs from the printer model: %r vs %r" % (bt[:300], mt[:300])
+    return None
+
+
+def oracle_print(case, impl):
+    """C14 on the implementation alone: the printed item parses, and parses back to the same item"""
+    if "panic" in impl:
+        return "panic while printing or parsing back: %s" % impl["panic"]
+    if "parse_error" in impl:
+        return "printed %s does not parse: %s (text %r)" % (case["kind"], impl["parse_error"][:200], impl.get("text", "")[:300])
+    if impl.get("same") is not True:
+        return "printed %s parses back to a different program: %r reprinted as %r" % (case["kind"], impl.get("text", "")[:300], impl.get("reprinted", "")[:300])
+    if impl.get("reloaded_same") is False:
+        return "print_block_source differs after a serialization round trip"
+    return None
+
+
+def match_singleton_set_parameter(k, d):
+    """a one-element set of a boolean, null or byte string prints as `{true}` / `{null}` / `{hex:..}`, which the
+    parser reads as a parameter; the model flags the items that contain such a set"""
+    return d["stream"] == "print" and d["model"].get("amb_param") is True and (
+        "parses back to a different program" in d["why"] or "does not parse" in d["why"] or "Remaining parameter" in d["why"])
+
+
+COMPARATORS = {"print": cmp_print, "snapshot": cmp_snapshot, "symbols": cmp_symbols, "versions": cmp_versions, "chain": cmp_chain, "limits": cmp_limits, "expr": cmp_default, "engine": cmp_engine, "authz": cmp_authz, "atten": cmp_atten, "determ": cmp_determ}
 
 
 def nontrivial(stream, case, impl):
@@ -447,6 +540,9 @@ def nontrivial(stream, case, impl):
         return impl["ext"].get("r") in ("ok", "nomatch", "unauth") and impl["base"].get("r") in ("ok", "nomatch", "unauth")
     if stream == "engine":
         return impl.get("r") == "ok" and impl.get("iterations", 0) >= 1
+    if stream == "print":
+        t = json.dumps(case["item"])
+        return '\\"' in t or '\\\\' in t or '"bin"' in t or '"map"' in t or '"scopes": [{' in t
     return True
 
 
@@ -580,7 +676,7 @@ def oracle_limits(case, impl):
     return None
 
 
-ORACLES = {("C13", "snapshot"): oracle_snapshot, ("C12", "symbols"): oracle_symbols, ("C10", "limits"): oracle_limits, ("C06", "expr"): oracle_expr, ("C03", "atten"): oracle_atten}
+ORACLES = {("C14", "print"): oracle_print, ("C13", "snapshot"): oracle_snapshot, ("C12", "symbols"): oracle_symbols, ("C10", "limits"): oracle_limits, ("C06", "expr"): oracle_expr, ("C03", "atten"): oracle_atten}
 
 
 def signature(d):
@@ -633,7 +729,7 @@ def match_policies_key_scope(k, d):
     return d["why"].startswith("policies restore error") and "UnknownExternalKey" in d["why"] and '"key"' in json.dumps(d["case"]["az"])
 
 
-MATCHERS = {"policies-key-scope": match_policies_key_scope, "ecdsa-s": match_ecdsa_s, "amb": match_amb, "time-after-failed-run": match_time_after_failed_run}
+MATCHERS = {"singleton-set-parameter": match_singleton_set_parameter, "policies-key-scope": match_policies_key_scope, "ecdsa-s": match_ecdsa_s, "amb": match_amb, "time-after-failed-run": match_time_after_failed_run}
 
 
 # ---------------------------------------------------------------- shrinking
